@@ -437,7 +437,8 @@ class ExcelModel:
                 if c.func.dsp.function_nodes:
                     continue
                 inp = c.output
-                if set(pred[inp]) == {c.func.function_id}:
+                fid = {k for k in pred[inp] if nodes[k].get('function') is c.func}
+                if fid and set(pred[inp]) == fid:
                     out = list(c.inputs)[0]
                     if not any(out in succ[k] for k in succ[inp]):
                         dsp.add_function(
